@@ -35,9 +35,9 @@ def install(ctx, self_rec, O, year, termday, sym_term=None):
 
     def call(c, fr, callee, args, path):
         a = [model.deref(c, x) for x in args]
-        if callee == "SolarDay::get_year" and a[0] is self_rec:
+        if callee in ("SolarDay::get_year", "SolarTime::get_year") and a[0] is self_rec:
             return True, year
-        if callee == "SolarDay::get_term" and a[0] is self_rec and sym_term is not None:
+        if callee in ("SolarDay::get_term", "SolarTime::get_term") and a[0] is self_rec and sym_term is not None:
             return True, sym_term
         if callee == "SolarTerm::from_index" and isinstance(a[0], T) and isinstance(a[1], T) and a[1].c is not None:
             return True, TermV(a[0].s, a[1].c)
@@ -47,7 +47,7 @@ def install(ctx, self_rec, O, year, termday, sym_term=None):
             return True, (a[0].sym["index"] if a[0].sym else I(a[0].idx % 24))
         if callee == "SolarTerm::get_julian_day" and isinstance(a[0], TermV):
             return True, TJDV(a[0])
-        if callee == "JulianDay::get_solar_day" and isinstance(a[0], TJDV):
+        if callee in ("JulianDay::get_solar_day", "JulianDay::get_solar_time") and isinstance(a[0], TJDV):
             t = a[0].term
             return True, DayV(t.sym["day"] if t.sym else termday(t.ykey, t.idx))
         d0 = DayV(O) if (a and a[0] is self_rec) else (a[0] if a else None)
@@ -56,9 +56,9 @@ def install(ctx, self_rec, O, year, termday, sym_term=None):
                 return True, DayV(T("(+ %s %s)" % (d0.t.s, a[1].s), "Int"))
             d1 = DayV(O) if (len(a) > 1 and a[1] is self_rec) else (a[1] if len(a) > 1 else None)
             if isinstance(d1, DayV):
-                if callee == "SolarDay::is_before":
+                if callee in ("SolarDay::is_before", "SolarTime::is_before"):
                     return True, T("(< %s %s)" % (d0.t.s, d1.t.s), "Bool")
-                if callee == "SolarDay::is_after":
+                if callee in ("SolarDay::is_after", "SolarTime::is_after"):
                     return True, T("(> %s %s)" % (d0.t.s, d1.t.s), "Bool")
                 if callee == "SolarDay::subtract":
                     return True, T("(- %s %s)" % (d0.t.s, d1.t.s), "Int")
